@@ -204,7 +204,7 @@ def rule_b(repo, chk):
     d_col0 = [s for s in stmts_in(w, ast.Assign) if any(isinstance(t, ast.Name) and t.id == 'column' for t in s.targets)]
     if len(ls) == 1 and len(d_col0) == 1:
         outcomes = _line_len_paths(w, ls[0], d_col0[0])
-        chk.floor('C01.b', len(outcomes), 3, '(paths from the line lookup to the column default)')
+        chk.floor('C01.b', len(outcomes), 1, '(paths from the line lookup to the column default)')   # fewer than 3 paths = terminators not told apart: a violation below, not a vanished anchor
         for facts, off in outcomes:
             crlf, lf = facts.get('crlf'), facts.get('lf')
             if lf is False:
